@@ -127,6 +127,11 @@ def oracle(case, est=None):
 
 def gen(ctx, opaque=False):
     c = st.gen_case(ctx.rng, ALG, max_depth=2, cap=30, opaque=opaque, ep=True, extra=3)
+    r = ctx.rng.random()
+    if r < 0.06:
+        c['spec'] = {'k': 'pipe', 'ss': []}          # a KoopmanPipeline without lifting functions (identity lifting)
+    elif r < 0.12 and c['spec']['k'] != 'pipe':
+        c['spec'] = {'k': 'pipe', 'ss': [c['spec']]}     # the same lifting function used through a one-stage pipeline
     c['rows_lab'] = c['rows']
     c['fit_ep'] = ctx.rng.random() < 0.5
     if not c['fit_ep']:
